@@ -26,6 +26,7 @@ var flatOverrides = [][2]string{
 // DrawPrefixes sets w.GlobalPfx / w.Prefix from the tape (nothing when the
 // first draw is 0) and returns the goderive flags that go with them.
 func (w *World) DrawPrefixes(t *tape.Tape) {
+	defer w.retargetUserFuncs()
 	switch t.Intn(4) {
 	case 0:
 		return
@@ -76,3 +77,64 @@ func (w *World) PrefixFlags() []string {
 
 // PrefixOf exposes the effective prefix of a plugin.
 func (w *World) PrefixOf(plugin string) string { return w.prefixOf(plugin) }
+
+// retargetUserFuncs renames hand-written functions with derive-like names to
+// the corresponding names under the world's prefix map ("deriveEqual_" becomes
+// "genEqual_" under -prefix=gen): they stay candidates for the names goderive
+// invents. One whose new name is the name of a derive call is dropped.
+func (w *World) retargetUserFuncs() {
+	if w.GlobalPfx == "" && len(w.Prefix) == 0 {
+		return
+	}
+	callNames := map[string]bool{}
+	var visit func(c *Call)
+	visit = func(c *Call) {
+		if c == nil {
+			return
+		}
+		callNames[w.FuncName(c)] = true
+		for _, a := range c.Args {
+			visit(a.Nested)
+		}
+		if c.Curried != nil {
+			visit(c.Curried.Nested)
+		}
+		visit(c.Pair)
+	}
+	for _, c := range w.Calls {
+		visit(c)
+	}
+	for _, c := range w.QCalls {
+		visit(c)
+	}
+	var plugins []string
+	for pl := range PluginPrefix {
+		plugins = append(plugins, pl)
+	}
+	sort.Slice(plugins, func(i, j int) bool {
+		a, b := PluginPrefix[plugins[i]], PluginPrefix[plugins[j]]
+		if len(a) != len(b) {
+			return len(a) > len(b)
+		}
+		return a < b
+	})
+	var keep []UserFunc
+	for _, u := range w.UserFuncs {
+		for _, pl := range plugins {
+			def := PluginPrefix[pl]
+			if strings.HasPrefix(u.Name, def) {
+				rest := u.Name[len(def):]
+				if rest == "" || rest == "_" || rest == "_1" {
+					n := w.prefixOf(pl) + rest
+					u.Text = strings.ReplaceAll(u.Text, u.Name+"(", n+"(")
+					u.Name = n
+				}
+				break
+			}
+		}
+		if !callNames[u.Name] {
+			keep = append(keep, u)
+		}
+	}
+	w.UserFuncs = keep
+}
